@@ -798,6 +798,270 @@ theorem roundtrip_names_bare_partial (n : Name) (hv : isValidNv true n = true) :
         rw [e, loop_colon _ _ (z :: zs) [] htn, loop_slash _ (by simp only [List.length_append, List.length_cons]; omega) _ m _ hm,
           splitLast_append _ (x :: xs) (y :: ys) cSlash (by simp) hnsl]
 
+/-! ## 9c. current tree: N1 is repaired upstream, the bare round trip holds at full strength -/
+
+/-- `IsFullyQualified` is the same predicate under the pinned and the repaired `IsValid` -/
+theorem isFQN_eq_cur (n : Name) :
+    isFQN n = (isValidNCur n && !n.host.isEmpty && !n.ns.isEmpty && !n.model.isEmpty && !n.tag.isEmpty) := by
+  simp only [isFQN, isValidNCur, isValidNv]
+  generalize isValidN n = a
+  generalize n.host.isEmpty = e
+  generalize n.ns.isEmpty = f
+  generalize n.model.isEmpty = g
+  generalize n.tag.isEmpty = i
+  revert a e f g i; decide
+
+/-- **names, bare round trip (full strength on the current tree).**  For every byte string `s`: if
+    `names.Parse(s).IsValid()` (the repaired `IsValid`) then `Parse(Parse(s).String()) = Parse(s)` — no
+    qualification needed, any subset of host/namespace/tag may be absent. -/
+theorem roundtrip_names_bare (s : Bytes) (h : isValidNCur (parseN s) = true) :
+    parseN (toStr (parseN s)) = parseN s :=
+  roundtrip_names_bare_partial _ h
+
+/-! ## 9d. the two digest validators accept the same language -/
+
+theorem hexNibble_isSome_fin :
+    ∀ n : Fin 256, (hexNibble (UInt8.ofNat n.val)).isSome = isHexB (UInt8.ofNat n.val) := by decide +kernel
+
+theorem hexNibble_isSome (c : UInt8) : (hexNibble c).isSome = isHexB c := by
+  have := hexNibble_isSome_fin ⟨c.toNat, c.toNat_lt⟩
+  simpa using this
+
+theorem hexDecode_step (a b : UInt8) (rest : Bytes)
+    (ih : (hexDecode rest).isSome = (rest.length % 2 == 0 && rest.all isHexB)) :
+    (hexDecode (a :: b :: rest)).isSome
+      = ((a :: b :: rest).length % 2 == 0 && (a :: b :: rest).all isHexB) := by
+  have h1 := hexNibble_isSome a; have h2 := hexNibble_isSome b
+  have hp : ((rest.length + 1 + 1) % 2 == 0) = (rest.length % 2 == 0) := by
+    congr 1; omega
+  simp only [List.length_cons, List.all_cons, hp, ← h1, ← h2]
+  simp only [hexDecode]
+  cases ha : hexNibble a <;> cases hb : hexNibble b <;> cases hr : hexDecode rest <;>
+    simp_all
+
+theorem hexDecode_isSome (hex : Bytes) :
+    (hexDecode hex).isSome = (hex.length % 2 == 0 && hex.all isHexB) := by
+  induction hex using hexDecode.induct with
+  | case1 => rfl
+  | case2 x => simp [hexDecode]
+  | case3 a b rest _ _ _ _ _ _ ih => exact hexDecode_step a b rest ih
+  | case4 a b rest _ ih => exact hexDecode_step a b rest ih
+
+theorem splitFirst_some (p : UInt8 → Bool) (s b a : Bytes) (c : UInt8)
+    (h : splitFirst p s = some (b, a, c)) : s = b ++ c :: a ∧ p c = true := by
+  induction s generalizing b with
+  | nil => simp [splitFirst] at h
+  | cons x xs ih =>
+    simp only [splitFirst] at h
+    split at h
+    · rename_i hx
+      simp only [Option.some.injEq, Prod.mk.injEq] at h
+      obtain ⟨rfl, rfl, rfl⟩ := h
+      exact ⟨rfl, hx⟩
+    · split at h
+      · rename_i b' a' c' hrec
+        simp only [Option.some.injEq, Prod.mk.injEq] at h
+        obtain ⟨rfl, rfl, rfl⟩ := h
+        obtain ⟨e, hp⟩ := ih b' hrec
+        exact ⟨by rw [e]; rfl, hp⟩
+      · cases h
+
+theorem matchDigestRe_shape (sep : UInt8) (hex : Bytes) :
+    matchDigestRe (sSha256 ++ sep :: hex)
+      = ((sep == cColon || sep == cDash) && hex.length == 64 && hex.all isHexB) := by
+  have h6 : (sSha256 ++ sep :: hex).take 6 = sSha256 := by simp [sSha256]
+  have hd : (sSha256 ++ sep :: hex).drop 6 = sep :: hex := by simp [sSha256]
+  simp only [matchDigestRe, h6, hd, beq_self_eq_true, Bool.true_and]
+
+/-- **The two digest validators accept exactly the same strings**: the legacy regexp
+    `^sha256[:-][0-9a-fA-F]{64}$` (`GetBlobsPath`) and `blob.ParseDigest` (first `:`/`-`, prefix `sha256`,
+    64 characters that `hex.Decode` accepts) — for every byte string. -/
+theorem digest_validators_agree (s : Bytes) : matchDigestRe s = (parseDigest s).isSome := by
+  have hsha : ∀ x ∈ sSha256, (fun c => c == cColon || c == cDash) x = false := by decide
+  rw [Bool.eq_iff_iff]
+  constructor
+  · intro h
+    obtain ⟨sep, hex, rfl, hsep, hlen, hhex⟩ := digest_re_shape s h
+    have hp : (fun c => c == cColon || c == cDash) sep = true := by
+      rcases hsep with rfl | rfl <;> decide
+    simp only [parseDigest, splitFirst_append _ sSha256 hex sep hp hsha, hlen, bne_self_eq_false,
+      Bool.false_or, Bool.false_eq_true, if_false]
+    rw [hexDecode_isSome, hlen]
+    simpa using hhex
+  · intro h
+    unfold parseDigest at h
+    split at h
+    · cases h
+    · rename_i pre sum sep hsf
+      obtain ⟨rfl, hp⟩ := splitFirst_some _ _ _ _ _ hsf
+      split at h
+      · cases h
+      · rename_i hcond
+        simp only [Bool.or_eq_true, bne_iff_ne, ne_eq, not_or, Decidable.not_not] at hcond
+        obtain ⟨rfl, hlen⟩ := hcond
+        rw [hexDecode_isSome] at h
+        simp only [Bool.and_eq_true] at h
+        rw [matchDigestRe_shape]
+        simp only [Bool.and_eq_true, beq_iff_eq]
+        exact ⟨⟨by simpa using hp, hlen⟩, h.2⟩
+
+/-- the blob file of an accepted digest in the new cache: `ParseDigest` then `GetFile`, for every string -/
+theorem digest_rejected_or_confined_cache (rc : List Bytes) (hrc : rc ≠ []) (hs : ∀ c ∈ rc, SafeComp c) (s : Bytes) :
+    parseDigest s = none ∨
+    ∃ sum, parseDigest s = some sum ∧
+      getFile (absPath rc) sum = absPath (rc ++ [sBlobs, sSha256 ++ cDash :: hexEncode sum]) ∧
+      SafeComp (sSha256 ++ cDash :: hexEncode sum) := by
+  cases h : parseDigest s with
+  | none => exact Or.inl rfl
+  | some sum => exact Or.inr ⟨sum, rfl, blob_path_confined_cache rc hrc hs sum⟩
+
+/-! ## 9e. EXPORT — interface for other properties (C08: the cache's manifest paths)
+
+  `import OllamaVerif.Properties.C13`, `open OllamaVerif.Names OllamaVerif.C13`.
+  * `names_isValidPart_safe`            names.isValidPart ⇒ safe path component
+  * `names_manifestPath_accepts_iff`    DiskCache.manifestPath accepts s ⇔ names.Parse(s).IsFullyQualified()
+  * `names_manifestPath_confined`       names.Parse → DiskCache.manifestPath: refused or `<dir>/manifests/a/b/c/d`
+  * `client_manifestPath_confined`      the same for every extended name (`scheme://h/ns/m:t@digest`) the registry
+                                        client accepts and hands to the cache as `n.String()`
+  * `cacheResolve_confined`             DiskCache.Resolve (name or name@digest): what file it goes on to read
+-/
+
+/-- a path as returned by `fs.Glob(os.DirFS(dir), "manifests/*/*/*/*")`: `manifests/` followed by four directory
+    entry names (an entry name is non-empty, is not `.`/`..`, contains no `/`) -/
+def GlobLink (l : Bytes) : Prop :=
+  ∃ a b c d, (∀ x ∈ [a, b, c, d], CleanComp x) ∧ l = joinWith cSlash [sManifests, a, b, c, d]
+
+/-- `p` is `<root>/manifests/a/b/c/d`: the root's components, then `manifests`, then exactly four components that
+    `filepath.Clean` leaves alone (no `..`, no separator) — inside `<root>/manifests` at depth 4 -/
+def ConfinedManifest (rc : List Bytes) (p : Bytes) : Prop :=
+  ∃ a b c d, (∀ x ∈ [a, b, c, d], CleanComp x) ∧ p = absPath (rc ++ [sManifests, a, b, c, d])
+
+/-- names.isValidPart ⇒ safe path component (alias of `valid_part_safe_names`) -/
+theorem names_isValidPart_safe (k : Kind) (s : Bytes) (hne : s ≠ []) (h : validPartN k s = true) :
+    SafeComp s ∧ CleanComp s ∧ s.length ≤ maxLen k :=
+  ⟨(valid_part_safe_names k s hne h).1, (valid_part_safe_names k s hne h).1.toClean, (valid_part_safe_names k s hne h).2⟩
+
+theorem names_manifestPath_accepts_iff (dir : Bytes) (links : List Bytes) (s : Bytes) :
+    (manifestPath dir links s).isSome = isFQN (parseN s) := by
+  unfold manifestPath nameToPath
+  cases h : isFQN (parseN s) with
+  | false => simp [h]
+  | true =>
+    simp only [h, if_true]
+    split <;> rfl
+
+/-- **names.Parse → DiskCache.manifestPath confinement.**  For every cache directory (absolute, clean), every
+    on-disk listing of glob shape and EVERY input byte string `s`: `manifestPath` refuses (`errInvalidName`,
+    exactly when `names.Parse(s)` is not fully qualified), or returns `<dir>/manifests/a/b/c/d` — either an
+    existing link that equals the wanted path under case folding, or the four safe parts of the parsed name. -/
+theorem names_manifestPath_confined (rc : List Bytes) (hrc : rc ≠ []) (hs : ∀ c ∈ rc, CleanComp c)
+    (links : List Bytes) (hl : ∀ l ∈ links, GlobLink l) (s : Bytes) :
+    manifestPath (absPath rc) links s = none ∨
+    ∃ p, manifestPath (absPath rc) links s = some p ∧ ConfinedManifest rc p ∧
+      ((∃ l ∈ links, p = pathJoin [absPath rc, l] ∧ equalFold (joinWith cSlash
+          [sManifests, (parseN s).host, (parseN s).ns, (parseN s).model, (parseN s).tag]) l = true) ∨
+       (p = absPath (rc ++ [sManifests, (parseN s).host, (parseN s).ns, (parseN s).model, (parseN s).tag]) ∧
+        ∀ c ∈ [(parseN s).host, (parseN s).ns, (parseN s).model, (parseN s).tag], SafeComp c)) := by
+  rcases nameToPath_shape s with h | ⟨_, hp, hsafe⟩
+  · left; simp [manifestPath, h]
+  · right
+    have hwant := pathJoin_manifests _ (by simp) hsafe
+    simp only [manifestPath, hp, hwant]
+    have hclean : ∀ c ∈ [sManifests, (parseN s).host, (parseN s).ns, (parseN s).model, (parseN s).tag],
+        CleanComp c := by
+      intro c hc
+      rcases List.mem_cons.mp hc with rfl | hc
+      · exact safe_manifests.toClean
+      · exact (hsafe c hc).toClean
+    cases hfind : links.find? (equalFold (joinWith cSlash
+        [sManifests, (parseN s).host, (parseN s).ns, (parseN s).model, (parseN s).tag])) with
+    | some l =>
+      have hmem := List.mem_of_find?_eq_some hfind
+      have hpred := List.find?_some hfind
+      obtain ⟨a, b, c, d, habcd, rfl⟩ := hl l hmem
+      refine ⟨_, rfl, ⟨a, b, c, d, habcd, ?_⟩, Or.inl ⟨_, hmem, rfl, hpred⟩⟩
+      apply pathJoin_abs_rel rc hrc hs _ (by simp)
+      intro x hx
+      rcases List.mem_cons.mp hx with rfl | hx
+      · exact safe_manifests.toClean
+      · exact habcd x hx
+    | none =>
+      have := pathJoin_abs_rel rc hrc hs _ (by simp) hclean
+      refine ⟨_, rfl, ⟨_, _, _, _, fun x hx => (hsafe x hx).toClean, this⟩, Or.inr ⟨this, hsafe⟩⟩
+
+/-- **Registry client → cache.**  For every extended name string (`scheme://host/ns/model:tag@digest`, any part
+    optional, any mask) that `parseNameExtended` accepts with a name: the string the client hands to the cache
+    (`n.String()`) is accepted by `DiskCache.manifestPath` and resolves inside `<dir>/manifests` at depth 4. -/
+theorem client_manifestPath_confined (rc : List Bytes) (hrc : rc ≠ []) (hs : ∀ c ∈ rc, CleanComp c)
+    (links : List Bytes) (hl : ∀ l ∈ links, GlobLink l) (mask : Name) (s scheme d : Bytes) (n : Name)
+    (h : parseNameExtended mask s = .ok (scheme, n, d)) (hn : n ≠ Name.zero) :
+    isFQN n = true ∧ ∃ p, manifestPath (absPath rc) links (toStr n) = some p ∧ ConfinedManifest rc p := by
+  rcases ext_accepted_fq mask s scheme d n h with h0 | ⟨hfq, hnp⟩
+  · exact absurd h0 hn
+  · refine ⟨hfq, ?_⟩
+    rcases names_manifestPath_confined rc hrc hs links hl (toStr n) with hnone | ⟨p, hp, hc, _⟩
+    · have := names_manifestPath_accepts_iff (absPath rc) links (toStr n)
+      rw [hnone, print_parse_names n hfq, hfq] at this
+      cases this
+    · exact ⟨p, hp, hc⟩
+
+/-- **DiskCache.Resolve addressing.**  For every input string: invalid, or a digest (whose blob file is
+    `<dir>/blobs/sha256-<hex>`, see `blob_path_confined_cache`), or a manifest file inside `<dir>/manifests` at
+    depth 4. -/
+theorem cacheResolve_confined (rc : List Bytes) (hrc : rc ≠ []) (hs : ∀ c ∈ rc, CleanComp c)
+    (links : List Bytes) (hl : ∀ l ∈ links, GlobLink l) (s : Bytes) :
+    cacheResolve (absPath rc) links s = .invalid ∨
+    (∃ sum, cacheResolve (absPath rc) links s = .digest sum ∧ parseDigest (splitNameDigest s).2 = some sum) ∨
+    ∃ p, cacheResolve (absPath rc) links s = .manifest p ∧ ConfinedManifest rc p := by
+  unfold cacheResolve
+  simp only
+  split
+  · cases hd : parseDigest (splitNameDigest s).2 with
+    | none => left; rfl
+    | some sum => right; left; exact ⟨sum, rfl, rfl⟩
+  · rcases names_manifestPath_confined rc hrc hs links hl (splitNameDigest s).1 with hnone | ⟨p, hp, hc, _⟩
+    · left; simp [hnone]
+    · right; right; exact ⟨p, by simp [hp], hc⟩
+
+/-! ## 9f. the property statement, entry point by entry point -/
+
+/-- **C13, top level.**  For every byte string `s` and every models directory `<root>` (absolute, safe components):
+    (1) as a name through the legacy `ParseModelPath`/`GetManifestPath`: refused or `<root>/manifests/h/ns/m/t`;
+    (2) as a name through `model.ParseName`/`Filepath`: refused (panic guard) or four safe components;
+    (3) as a name relative path: zero name, or exactly `Filepath()` of the returned qualified name;
+    (4) as a digest through `GetBlobsPath`: refused, blobs dir for the empty string, or `<root>/blobs/sha256-<hex>`;
+    (5) as a digest through `blob.ParseDigest`/`GetFile`: refused or `<root>/blobs/sha256-<lower hex>`;
+    (6) as a name through the new cache (any glob-shaped listing): refused or `<root>/manifests/a/b/c/d`. -/
+theorem C13_rejected_or_confined (rc : List Bytes) (hrc : rc ≠ []) (hs : ∀ c ∈ rc, SafeComp c)
+    (links : List Bytes) (hl : ∀ l ∈ links, GlobLink l) (s : Bytes) :
+    (mpManifestPath (absPath rc) (parseModelPath s) = none ∨
+      ∃ h ns m t, (∀ c ∈ [h, ns, m, t], SafeComp c) ∧
+        mpManifestPath (absPath rc) (parseModelPath s) = some (absPath (rc ++ [sManifests, h, ns, m, t]))) ∧
+    (filepathM (parseName s) = none ∨
+      (filepathM (parseName s) = some (joinWith cSlash
+          [(parseName s).host, (parseName s).ns, (parseName s).model, (parseName s).tag]) ∧
+        ∀ c ∈ [(parseName s).host, (parseName s).ns, (parseName s).model, (parseName s).tag], SafeComp c)) ∧
+    (parseNameFromFilepath s = Name.zero ∨
+      (isFQM (parseNameFromFilepath s) = true ∧ filepathM (parseNameFromFilepath s) = some s)) ∧
+    (getBlobsPath (absPath rc) s = none ∨
+      (s = [] ∧ getBlobsPath (absPath rc) s = some (absPath (rc ++ [sBlobs]))) ∨
+      ∃ hex, hex.length = 64 ∧ (∀ c ∈ hex, isHexB c = true) ∧ SafeComp (sSha256 ++ cDash :: hex) ∧
+        getBlobsPath (absPath rc) s = some (absPath (rc ++ [sBlobs, sSha256 ++ cDash :: hex]))) ∧
+    (parseDigest s = none ∨
+      ∃ sum, parseDigest s = some sum ∧
+        getFile (absPath rc) sum = absPath (rc ++ [sBlobs, sSha256 ++ cDash :: hexEncode sum]) ∧
+        SafeComp (sSha256 ++ cDash :: hexEncode sum)) ∧
+    (manifestPath (absPath rc) links s = none ∨
+      ∃ p, manifestPath (absPath rc) links s = some p ∧ ConfinedManifest rc p) := by
+  refine ⟨rejected_or_confined_legacy rc hrc hs s, ?_, relpath_accepted s,
+    blob_path_confined_legacy rc hrc hs s, digest_rejected_or_confined_cache rc hrc hs s, ?_⟩
+  · cases h : isFQM (parseName s) with
+    | false => exact Or.inl ((filepath_shape _).1 h)
+    | true => exact Or.inr ((filepath_shape _).2 h)
+  · rcases names_manifestPath_confined rc hrc (fun c hc => (hs c hc).toClean) links hl s with h | ⟨p, hp, hc, _⟩
+    · exact Or.inl h
+    · exact Or.inr ⟨p, hp, hc⟩
+
 /-! ## 10. non-vacuity -/
 
 /-- the hypotheses of the theorems above are met by non-trivial concrete values: a fully qualified name with a
